@@ -80,6 +80,8 @@ def run(repo, rep):
         raise AnalysisError("binding stems in graph_optimiser_util: fewer than 3 found")
     rule_rewrites_of_unplaced_operators(repo, rep)
     rule_round10(repo, rep)
+    rep.clause("C11-y", "reader and writer agree on the identity of an Ethos-U operator: custom code and options are both tested before an operator counts as an existing NPU operator; any other CUSTOM operator is passed through")
+    rule_existing_npu_op_identity(repo, rep)
     rule_overwritten_options(repo, rep)
     rule_quant_record_kept(repo, rep)
     rule_pass_order(repo, rep)
@@ -1192,3 +1194,26 @@ def rule_round10(repo, rep):
 
     if _cc11(repo, rep, "C11-x") < 20:
         raise AnalysisError("Operation.clone: fewer than 20 members checked")
+
+
+def rule_existing_npu_op_identity(repo, rep):
+    """(y) reader and writer agree on what an Ethos-U operator is: the writer emits it as a CUSTOM operator whose custom code is the string it
+    passes to CreateString (`ethos-u`) *and* whose options are CUSTOM_OPTIONS_NPU_OP. The reader may classify an operator as
+    CustomType.ExistingNpuOp only if it has tested that custom code too - the three option bytes alone also occur as a third-party
+    operator's options, and that operator must be passed through untouched."""
+    wm = repo.mod("tflite_writer")
+    codes = {c.args[0].value for c in ast.walk(wm.tree) if isinstance(c, ast.Call) and str(norm(c.func)).endswith("CreateString") and c.args and isinstance(c.args[0], ast.Constant) and isinstance(c.args[0].value, str)}
+    if len(codes) != 1:
+        raise AnalysisError(f"tflite_writer: custom code literals {sorted(codes)}")
+    code = codes.pop()
+    tested = []
+    for mn in ("tflite_reader", "tflite_mapping"):
+        m = repo.mod(mn)
+        for q, fn in m.functions.items():
+            src_has_type = any(isinstance(x, ast.Attribute) and x.attr == "ExistingNpuOp" for x in ast.walk(fn))
+            for c in ast.walk(fn):
+                if isinstance(c, ast.Compare) and any(isinstance(x, ast.Constant) and x.value == code for x in ast.walk(c)) and src_has_type:
+                    tested.append(f"{m.rel}:{q}")
+    rep.check(bool(tested), "C11-y", "ethosu/vela/tflite_mapping.py:CustomOptionsSerializer.deserialize", f"an operator is classified as an existing Ethos-U operator only after its custom code was compared with '{code}'",
+              f"no function that handles CustomType.ExistingNpuOp compares the custom code with '{code}': a third-party CUSTOM operator whose options are the bytes 01 04 01 is taken for an Ethos-U operator "
+              "(compilation aborts with 'Scratch tensor not found' instead of passing the operator through)")
